@@ -31,7 +31,8 @@ NUMBER_CLASSES = {'INT': b'1', 'NUM_dot': b'1.', 'NUM_ldot': b'.5', 'NUM_frac': 
                   'NUM_expm': b'2e-3', 'NUM_expp': b'3e+2', 'HEX': b'0x1f', 'HEXU': b'0X2E', 'HEXFRAC': b'0x1.8',
                   'HEXLDOT': b'0x.8', 'BIN': b'0b1', 'BINFRAC': b'0b1.1'}
 STRING_CLASSES = {'STR_dq': b'"s"', 'STR_sq': b"'s'", 'STR_long0': b'[[s]]', 'STR_long1': b'[=[s]=]',
-                  'STR_esc': b'"\\n\\65\\\\"', 'STR_empty': b'""', 'STR_escx': b'"\\x41\\z  b\\0001"'}
+                  'STR_esc': b'"\\n\\65\\\\"', 'STR_empty': b'""', 'STR_escx': b'"\\x41\\z  b\\0001"',
+                  'STR_hi': b'"\x8b\xff\x10"', 'STR_longml': b'[[a\nb]]'}
 NAME_POOL = [b'a', b'b', b'c']
 
 # ---------------------------------------------------------------- the grammar
@@ -52,6 +53,7 @@ rule('block', 'b_empty')
 rule('block', 'b_stat', 'stat', 'block')
 rule('block', 'b_stat_semi', 'stat', q(';'), 'block')
 rule('block', 'b_last', 'laststat')
+rule('block', 'b_semi', q(';'), 'block')            # empty statement
 rule('block', 'b_last_semi', 'laststat', q(';'))
 rule('laststat', 'return', q('return'), 'retvals')
 rule('laststat', 'break', q('break'))
@@ -581,6 +583,9 @@ class _Renderer(object):
         if cls in OPEN_BR:
             self.depth += 1
         t.line_scope = self.scope
+        if self.scope is not None and (b'\n' in text or b'\r' in text):
+            p.valid = False
+            p.why = 'multi-line token inside a line-scoped construct'
         if self.scope is not None and p.toks and p.toks[-1].line_scope == self.scope:
             p.no_nl.add(len(p.toks))
         p.toks.append(t)
@@ -643,6 +648,10 @@ class _Renderer(object):
                     self.last_semi = True
                 else:
                     self.last_semi = False
+                cur = ks[-1]
+                continue
+            if lab == 'b_semi':
+                self.emit(';')
                 cur = ks[-1]
                 continue
             if lab in ('b_last', 'b_last_semi'):
@@ -1102,7 +1111,7 @@ def embed_variants(nt, tree):
 
 # ---------------------------------------------------------------- text assembly and layouts
 SEPARATORS = [b'', b' ', b'\t', b'   ', b'\n', b'\r\n', b'\r', b'\n\n \n', b' -- c\n', b'//c\n', b' --[[c]] ', b'--[[c\nd]]',
-              b' \n  ', b'\t-- c\n\t', b' // c\r']
+              b' \n  ', b'\t-- c\n\t', b' // c\r', b' --[=[c]=] ']
 
 
 def has_nl(sep):
